@@ -27,7 +27,7 @@ def run(ctx):
     ctx.model_check("chain/MCChainCrash", "chain/MCChainCrash" if not ctx.thorough else "chain/MCChainCrashThorough",
                     timeout=ctx.pick(3600, 21600), workers=4, name="MCChainCrash", coverage=ctx.thorough)
     res = ctx.tlc("chain/MCChainCrash", "chain/MCChainCrashSim" if not ctx.thorough else "chain/MCChainCrashSimThorough",
-                  simulate="num=%d" % ctx.pick(25, 60), depth=ctx.pick(10, 12), tags=("MBT",), workers=4,
+                  simulate="num=%d" % ctx.pick(25, 300), depth=ctx.pick(10, 12), tags=("MBT",), workers=4,
                   timeout=ctx.pick(3600, 21600), name="MCChainCrashSim")
     if res.error or res.timeout:
         raise InfraError("TLC simulation failed: %s\n%s" % (res.error, res.stdout[-2000:]))
